@@ -80,9 +80,13 @@ def decodeUtf16 : List Nat → List Char
     else Char.ofNat u :: decodeUtf16 (v :: rest)
 
 /-- `n` little-endian 16-bit units starting at byte `off` -/
-def units (b : Bytes) (off n : Nat) : List Nat := (List.range n).map fun i => u16 b (off + 2 * i)
+def units (b : Bytes) (off : Nat) : Nat → List Nat
+  | 0 => []
+  | n + 1 => u16 b off :: units b (off + 2) n
 /-- `n` bytes starting at `off`, each widened to a unit (compressed string) -/
-def narrow (b : Bytes) (off n : Nat) : List Nat := (List.range n).map fun i => byteAt b (off + i)
+def narrow (b : Bytes) (off : Nat) : Nat → List Nat
+  | 0 => []
+  | n + 1 => byteAt b off :: narrow b (off + 1) n
 
 /-! ### state and edits -/
 
@@ -122,13 +126,15 @@ def insertAt (l : List Char) (i : Nat) (c : Char) : List Char := l.take i ++ c :
 /-- `for w in args.windows(2) { push_str(&fargs[w[0]..w[1]]); push(',') }; pop()` -/
 def joinArgs (fargs : List Char) : List Nat → Res (List Char)
   | [] => .ok []
-  | [_] => .ok []
-  | [a, b] => if a > b ∨ b > fargs.length then .panic "fargs slice" else .ok ((fargs.drop a).take (b - a))
-  | a :: b :: c :: rest =>
-    if a > b ∨ b > fargs.length then .panic "fargs slice" else
-    match joinArgs fargs (b :: c :: rest) with
-    | .ok t => .ok ((fargs.drop a).take (b - a) ++ ',' :: t)
-    | e => e
+  | a :: tl =>
+    match tl with
+    | [] => .ok []
+    | b :: rest =>
+      if a > b ∨ b > fargs.length then .panic "fargs slice" else
+      if rest.isEmpty then .ok ((fargs.drop a).take (b - a)) else
+      match joinArgs fargs tl with
+      | .ok t => .ok ((fargs.drop a).take (b - a) ++ ',' :: t)
+      | e => e
 
 def applyAct (a : Act) (s : St) : Res St :=
   match a with
